@@ -77,7 +77,7 @@ def run_case(case):
             fn = e.filename
             return {"status": "textx", "cls": type(e).__name__, "message": e.message, "line": e.line, "col": e.col,
                     "nchar": e.nchar, "filename": None if fn is None else os.path.basename(fn),
-                    "dir_ok": fn is None or os.path.dirname(fn) in (d, ""), "fired": fired,
+                    "dir_ok": fn is None or os.path.dirname(fn) == "" or os.path.realpath(os.path.dirname(fn)) == os.path.realpath(d), "fired": fired,
                     "str": str(e).replace(d + os.sep, "")}
         except Exception as e:  # noqa
             return {"status": "exc", "cls": type(e).__name__, "message": str(e), "fired": fired}
